@@ -77,6 +77,7 @@ class Worker(object):
         os.close(g_in_r)
         self.buf = b""
         self.gbuf = b""
+        self.g_eof = False
         self.pending = None      # the gated operation the process waits to make
         self.reply = None
         self.active = False
@@ -106,7 +107,8 @@ class Worker(object):
                 line, self.buf = self.buf.split(b"\n", 1)
                 self.reply = json.loads(line)
                 return "reply"
-            r, _, _ = select.select([self.g_out_r, self.proc.stdout], [], [], timeout)
+            fds = [self.proc.stdout] if self.g_eof else [self.g_out_r, self.proc.stdout]
+            r, _, _ = select.select(fds, [], [], timeout)
             if not r:
                 return "blocked"
             for fd in r:
@@ -117,6 +119,10 @@ class Worker(object):
                     elif self.proc.poll() is not None:
                         self.dead = True
                         return "died"
+                    else:
+                        # end of file on the gate pipe of a live process (an ungated worker has no writer): stop
+                        # selecting on it, or a worker that hangs inside the library would be waited for for ever
+                        self.g_eof = True
                 else:
                     d = os.read(self.proc.stdout.fileno(), 65536)
                     if not d:
